@@ -28,28 +28,12 @@ MAXREPEAT = sre_c.MAXREPEAT
 _NL = S.CC([(10, 10)])
 
 
-def _narrow_map():
-    c = Ctx.current
-    if c is None:
-        return None
-    m = c.__dict__.get('cc_narrow')
-    if m is None:
-        m = c.__dict__['cc_narrow'] = {}
-    return m
+_narrow_map = S.narrow_map
+eff_class = S.eff_class
 
 
-def eff_class(cell):
-    """class of a symbolic cell as narrowed by the decisions taken on this path"""
-    m = _narrow_map()
-    if m:
-        n = m.get(str(cell.cp))
-        if n is not None:
-            return cell.cc.inter(n)
-    return cell.cc
-
-
-def test(cell, cc, neg=False):
-    """does the character of `cell` lie in class cc (outside it when neg)?  Forks when undetermined."""
+def tri(cell, cc, neg=False):
+    """True / False when the classes decide the test, None when it depends on the character"""
     if isinstance(cell, str):
         return cc.has(ord(cell)) != neg
     eff = eff_class(cell)
@@ -57,10 +41,19 @@ def test(cell, cc, neg=False):
         return not neg
     if eff.inter(cc).empty():
         return neg
+    return None
+
+
+def test(cell, cc, neg=False):
+    """does the character of `cell` lie in class cc (outside it when neg)?  Forks when undetermined."""
+    r = tri(cell, cc, neg)
+    if r is not None:
+        return r
+    eff = eff_class(cell)
     v = bool(S.mkbool(cc.z3in(cell.cp)))             # fork
     m = _narrow_map()
     if m is not None:
-        m[str(cell.cp)] = eff.inter(cc) if v else eff.minus(cc)
+        m[cell.cp.get_id()] = eff.inter(cc) if v else eff.minus(cc)
     return v != neg
 
 
@@ -95,6 +88,28 @@ class _M(object):
     """one matching attempt"""
     def __init__(self, prog, cells):
         self.p, self.cells, self.n = prog, cells, len(cells)
+        self.may = False          # may-mode: an undetermined test counts as passed, nothing forks (over-approximation)
+
+    def atom(self, i, cc, neg, k, g):
+        """test cell i against an atom and continue.  Before forking on an undetermined test, the rest of the match is run
+        in may-mode: if it cannot succeed even when every undetermined test passes, the atom's outcome is irrelevant (the
+        attempt fails on both sides) and no fork is made."""
+        if i >= self.n:
+            return None
+        r = tri(self.cells[i], cc, neg)
+        if r is None:
+            if self.may:
+                r = True
+            else:
+                self.may = True
+                try:
+                    possible = k(i + 1, g) is not None
+                finally:
+                    self.may = False
+                if not possible:
+                    return None
+                r = test(self.cells[i], cc, neg)
+        return k(i + 1, g) if r else None
 
     def seq(self, items, idx, i, g, k):
         if idx == len(items):
@@ -105,22 +120,16 @@ class _M(object):
     def node(self, op, av, i, g, k):
         cells, n = self.cells, self.n
         if op is sre_c.LITERAL:
-            if i < n and test(cells[i], S.CC([(av, av)])):
-                return k(i + 1, g)
-            return None
+            return self.atom(i, S.CC([(av, av)]), False, k, g)
         if op is sre_c.NOT_LITERAL:
-            if i < n and test(cells[i], S.CC([(av, av)]), True):
-                return k(i + 1, g)
-            return None
+            return self.atom(i, S.CC([(av, av)]), True, k, g)
         if op is sre_c.ANY:
-            if i < n and (self.p.flags & re.DOTALL or test(cells[i], _NL, True)):
-                return k(i + 1, g)
-            return None
+            if self.p.flags & re.DOTALL:
+                return k(i + 1, g) if i < n else None
+            return self.atom(i, _NL, True, k, g)
         if op is sre_c.IN:
             cc, neg = self.p.cls(av)
-            if i < n and test(cells[i], cc, neg):
-                return k(i + 1, g)
-            return None
+            return self.atom(i, cc, neg, k, g)
         if op is sre_c.BRANCH:
             for alt in av[1]:
                 r = self.seq(list(alt), 0, i, g, k)
@@ -172,14 +181,21 @@ class _M(object):
             if av is sre_c.AT_END_STRING:
                 return k(i, g) if i == n else None
             if av is sre_c.AT_END:
-                if i == n or (i == n - 1 and test(cells[i], _NL)):
+                if i == n:
                     return k(i, g)
+                if i == n - 1:
+                    r = tri(cells[i], _NL)
+                    if r is None:
+                        r = True if self.may else test(cells[i], _NL)
+                    return k(i, g) if r else None
                 return None
             raise OutOfSubset('regex anchor %s' % av)
         if op in (sre_c.ASSERT, sre_c.ASSERT_NOT):
             d, p = av
             if d < 0:
                 raise OutOfSubset('look-behind')
+            if op is sre_c.ASSERT_NOT and self.may:
+                return k(i, g)                 # over-approximation: the assertion may hold
             r = self.seq(list(p), 0, i, g, lambda i2, g2: (i2, g2))
             if op is sre_c.ASSERT:
                 return k(i, r[1]) if r is not None else None
